@@ -193,11 +193,16 @@ fn command_go(
         let winc = winc.unwrap();
         let binc = binc.unwrap();
 
-        // We decrease the time to make sure we never run out
-        let white_time =
-            (wtime as f64 * FRACTION_OF_TOTAL_TIME) as u64 + winc - LATENCY_MS_COMPENSATE;
-        let black_time =
-            (btime as f64 * FRACTION_OF_TOTAL_TIME) as u64 + binc - LATENCY_MS_COMPENSATE;
+        // We decrease the time to make sure we never run out. The budget never goes below
+        // zero (low clocks) and never exceeds what is left on the clock (large increments)
+        let budget = |time_left: u64, increment: u64| {
+            ((time_left as f64 * FRACTION_OF_TOTAL_TIME) as u64)
+                .saturating_add(increment)
+                .min(time_left)
+                .saturating_sub(LATENCY_MS_COMPENSATE)
+        };
+        let white_time = budget(wtime, winc);
+        let black_time = budget(btime, binc);
 
         time = if game.player() == Player::White {
             Some(Duration::from_millis(white_time))
